@@ -38,8 +38,10 @@ def to_driver_spec(spec):
 
 
 def settings(histo='4p', norm='4', clip_sample=None, clip_bin=None, poi='mu'):
-    return {'histo': histo, 'norm': norm, 'clip_sample': None if clip_sample is None else f2b(clip_sample),
-            'clip_bin': None if clip_bin is None else f2b(clip_bin), 'poi': poi}
+    st = {'histo': histo, 'norm': norm, 'clip_sample': None if clip_sample is None else f2b(clip_sample),
+          'clip_bin': None if clip_bin is None else f2b(clip_bin), 'poi': poi}
+    if poi is None: del st['poi']       # a model without parameter of interest
+    return st
 
 
 def model_call(lean, spec, st, queries):
